@@ -350,6 +350,93 @@ func genFsstoreFacts(repo string) string {
 		return true
 	})
 	fmt.Fprintf(&sb, "/-- generated from `Store.InitDefaults`: arguments of Init -/\ndef initDefaults_src : List String := %s\n\n", leanStrList(args))
+	// (4) the write path in full: every call of Put / PutStream / move / haveDir in source order, except pure helpers.
+	// Anything put between the caller's Write and the staging file (a buffer, say), or between close and rename, shows here.
+	pure := map[string]bool{"fmt.Errorf": true, "filepath.Join": true, "filepath.Dir": true, "hex.EncodeToString": true, "hook": true,
+		"ctx.Err": true, "os.IsExist": true, "os.IsNotExist": true, "errors.Is": true, "errors.As": true, "len": true, "string": true}
+	fmt.Fprintf(&sb, "/-- generated: per function on the write path of storage/fsstore/fsstore.go, ALL calls in source order (pure helpers and the verif hook excluded) -/\ndef fsAllCalls_src : List (String × List String) := [\n")
+	for i, fn := range fns {
+		fd := s.funcDecl(fn)
+		var calls []string
+		ast.Inspect(fd.Body, func(n ast.Node) bool {
+			if ce, ok := n.(*ast.CallExpr); ok {
+				nm := selectorPath(ce.Fun)
+				if nm == "" {
+					nm = "<expr>"
+				}
+				if !pure[nm] {
+					calls = append(calls, nm)
+				}
+			}
+			return true
+		})
+		comma := ","
+		if i == len(fns)-1 {
+			comma = ""
+		}
+		fmt.Fprintf(&sb, "  (%q, %s)%s\n", fn, leanStrList(calls), comma)
+	}
+	sb.WriteString("]\n\n")
+	// (5) how the staging file is opened, and what PutStream hands out as the writer
+	ps := s.funcDecl("Store.PutStream")
+	var flags []string
+	var fileVar string
+	opens := 0
+	ast.Inspect(ps.Body, func(n ast.Node) bool {
+		if as, ok := n.(*ast.AssignStmt); ok && len(as.Rhs) == 1 {
+			if ce, ok := as.Rhs[0].(*ast.CallExpr); ok && selectorPath(ce.Fun) == "os.OpenFile" && len(ce.Args) == 3 {
+				opens++
+				var walk func(e ast.Expr)
+				walk = func(e ast.Expr) {
+					switch x := e.(type) {
+					case *ast.BinaryExpr:
+						if x.Op.String() != "|" {
+							panic(failure{"storage/fsstore/fsstore.go PutStream: OpenFile flags are not a plain | of constants"})
+						}
+						walk(x.X)
+						walk(x.Y)
+					case *ast.ParenExpr:
+						walk(x.X)
+					default:
+						flags = append(flags, selectorPath(e))
+					}
+				}
+				walk(ce.Args[1])
+				if id, ok := as.Lhs[0].(*ast.Ident); ok {
+					fileVar = id.Name
+				}
+			}
+		}
+		return true
+	})
+	if opens != 1 {
+		panic(failure{fmt.Sprintf("storage/fsstore/fsstore.go PutStream: expected exactly one os.OpenFile, found %d", opens)})
+	}
+	sort.Strings(flags)
+	fmt.Fprintf(&sb, "/-- generated from `Store.PutStream`: the flags of the one os.OpenFile (sorted) -/\ndef stagingOpenFlags_src : List String := %s\n\n", leanStrList(flags))
+	// the io.Writer results of the return statements that return a non-nil writer, relative to the opened file variable
+	var writers []string
+	ast.Inspect(ps.Body, func(n ast.Node) bool {
+		if fl, ok := n.(*ast.FuncLit); ok {
+			_ = fl
+			return false // returns of the commit closure are not PutStream's
+		}
+		if rs, ok := n.(*ast.ReturnStmt); ok && len(rs.Results) == 3 {
+			if id, ok := rs.Results[0].(*ast.Ident); ok && id.Name == "nil" {
+				return true
+			}
+			w := selectorPath(rs.Results[0])
+			if w == "" {
+				w = "<expr>"
+			}
+			if w == fileVar {
+				w = "the-opened-file"
+			}
+			writers = append(writers, w)
+		}
+		return true
+	})
+	fmt.Fprintf(&sb, "/-- generated from `Store.PutStream`: what is returned as the io.Writer (relative to the variable holding the opened staging file) -/\ndef putStreamWriter_src : List String := %s\n\n", leanStrList(writers))
 	return sb.String()
 }
 
